@@ -185,10 +185,15 @@ func (m *menv) withdraw(user neotest.Signer, signer neotest.Signer, amount int64
 			receivers = append(receivers, world.Hash160Of(k))
 		}
 	}
+	// can the user pay every receiver? (fees of the transaction itself are paid by the neutral payer)
+	solvent := m.w.GASOf(u).Cmp(big.NewInt(fee*int64(len(receivers)))) >= 0
 	r := m.w.Invoke([]world.SignerSpec{world.G(signer)}, m.nfs, "withdraw", u, amount)
 	b.Tx(1)
 	witnessed := signer.ScriptHash() == u
-	exp := witnessed && amount >= 0 && amount <= 9000
+	exp := witnessed && amount >= 0 && amount <= 9000 && solvent
+	if witnessed && amount >= 0 && amount <= 9000 && !solvent {
+		b.Hit("withdraw-by-a-user-who-cannot-pay-every-receiver")
+	}
 	if exp != r.Halted() {
 		b.Violation(fmt.Sprintf("withdraw(%d) witnessed=%v: expected success=%v, got %s %s", amount, witnessed, exp, r.State, r.Fault), m.detail(r))
 	}
@@ -478,6 +483,20 @@ func runMoney(b *runner.Batch, idx int) {
 				s = runner.Pick(r, m.users)
 			}
 			m.withdraw(u, s, runner.Pick(r, []int64{0, 1, 10, 8999, 9000, 9001, -1}))
+			if r.IntN(4) == 0 {
+				// a user holding k fees and a bit, k below the number of receivers: all or nothing (seeded change C19-7)
+				m.seq++
+				poor := world.Single(world.Key(b.Seed, b.Index, "poor", m.seq))
+				n := int64(1)
+				if !m.notary {
+					n = int64(len(m.alphabet))
+				}
+				k := r.Int64N(n + 1)
+				if fee := m.cfg["WithdrawFee"]; fee > 0 {
+					m.w.FundGAS(poor.ScriptHash(), fee*k+fee/2)
+					m.withdraw(poor, poor, 5)
+				}
+			}
 		case k < 16:
 			bal := m.w.GASOf(m.nfs).Int64()
 			a := runner.Pick(r, []int64{1, bal / 2, bal, bal + 1, 12345})
